@@ -223,7 +223,7 @@ def _check_gridded_runs(repo, res, cls):
     bad, n = [], 0
     for gl, grid in grids.items():
         for form, mk in (("list", list), ("tuple", tuple), ("array", lambda g: NumArr(list(g)))):
-            for exact in (True, False):
+            for exact, full in ((True, True), (False, True), (True, False), (False, False)):
                 order = list(paths)
                 calls = []
 
@@ -243,9 +243,9 @@ def _check_gridded_runs(repo, res, cls):
                 ab.class_methods = set(repo.all_methods(cls))
                 ab.self_class = (repo, cls)
                 ab.module = f.module
-                tag = "%s as %s, exact=%s" % (gl, form, exact)
+                tag = "%s as %s, exact=%s%s" % (gl, form, exact, "" if full else ", full_output=False")
                 try:
-                    kind, out = ab.run_function(f.node, {"t": mk(grid), "iteration": len(order), "parallel": False, "exact": exact, "full_output": True})
+                    kind, out = ab.run_function(f.node, {"t": mk(grid), "iteration": len(order), "parallel": False, "exact": exact, "full_output": full})
                 except Undecided as e:
                     res.undecided("R-GRIDRUN", f, "whole-runs", "outside the modelled subset (%s): %s" % (tag, e))
                     return
@@ -253,6 +253,12 @@ def _check_gridded_runs(repo, res, cls):
                 if kind != "return":
                     bad.append("%s: raises %s" % (tag, out))
                     continue
+                if not full:
+                    # only the states are returned: the same rows as with full output
+                    if not (isinstance(out, list) and len(out) == len(order)):
+                        bad.append("%s: the output is not one state array per run" % tag)
+                        continue
+                    out = (out, [None] * len(order), None)
                 if not (isinstance(out, tuple) and len(out) == 3 and len(out[0]) == len(order) and len(out[1]) == len(order)):
                     bad.append("%s: the output is not (states per run, counts per run, grid) for %d runs" % (tag, len(order)))
                     continue
@@ -263,6 +269,8 @@ def _check_gridded_runs(repo, res, cls):
                     X, J, T = paths[pl]
                     rows = out[0][k].tolist() if isinstance(out[0][k], NumArr) else out[0][k]
                     cnts = out[1][k].tolist() if isinstance(out[1][k], NumArr) else out[1][k]
+                    if not full:
+                        cnts = None
                     if exact:
                         want_rows = [X[max(i for i, te in enumerate(T) if te <= tk)] for tk in grid]
                     else:
@@ -280,6 +288,8 @@ def _check_gridded_runs(repo, res, cls):
                         return isinstance(a, list) and len(a) == len(b) and all(isinstance(r, list) and len(r) == len(w_) and all(abs(x - y) < 1e-9 for x, y in zip(r, w_)) for r, w_ in zip(a, b))
                     if not same(rows, want_rows):
                         bad.append("%s, path %s (event times %s): the rows are %s, expected %s" % (tag, pl, T[1:], rows, want_rows))
+                    elif cnts is None:
+                        pass
                     elif not same(cnts, want_cnts):
                         bad.append("%s, path %s (event times %s): the per-interval counts are %s, expected %s" % (tag, pl, T[1:], cnts, want_cnts))
                     elif exact and any(abs((rows[q + 1][s_] - rows[q][s_]) - sum(V[s_][i] * cnts[q][i] for i in range(2))) > 1e-9 for q in range(len(grid) - 1) for s_ in range(3)):
@@ -322,4 +332,4 @@ def _check_gridded_runs(repo, res, cls):
                 bad.append("%s: the raw runs are not returned as (states, counts, times) per run in run order (runs started with %s)" % (tag, calls))
     res.check(not bad, "R-GRIDRUN", f, "whole-runs", "%d gridded calls (list / tuple / array grids, even and uneven, exact and tau-leap) over 3 scripted paths each: rows, counts and their "
               "relation are those of the underlying path" % n, "; ".join(bad[:2]), node=f.node)
-    res.floor("gridded calls interpreted", n, 18)
+    res.floor("gridded calls interpreted", n, 30)
